@@ -123,6 +123,43 @@ DESC = {
               "--more, one `continues` reply, then the peer hangs up: exit status 0 although the announced reply never arrived"),
     "C20-4": ("C20", "print_call_ret -> render_call_ret returning a String; --more output is buffered when stdout is not a terminal",
               "--more with stdout piped, successful replies then an error reply: the pending successful replies are never written"),
+    # ---- round 7 (2026-09-29) ----
+    "C04-5": ("C04", "reply_struct refactored into one `if continues { .. } else if is_oneway() { return }` chain with a shared write_reply helper",
+              "a request with oneway:true AND more:true to a method that streams with set_continues(true): the intermediate replies are written"),
+    "C04-6": ("C04", "VarlinkService caches serialized GetInterfaceDescription replies; a cache hit writes the cached bytes straight to call.writer",
+              "the same description requested before on this service instance, then requested again with oneway:true"),
+    "C05-5": ("C05", "the CallContinuesMismatch gate gains `&& reply.error.is_none()` while the continues stamp below it is unchanged",
+              "a method that calls set_continues(true) and then sends an ERROR reply on a request without more"),
+    "C05-6": ("C05", "MethodCall::recv handles the error reply first through a release() helper that no longer clears self.continues",
+              "a `more` stream ending in an error reply, polled again afterwards: next() yields Err(IteratorOldReply) forever"),
+    "C08-3": ("C08", "MethodCall::send drops the `parameters` member when the arguments serialise to an empty object",
+              "a generated method whose inputs are all optional, called with every one unset: the generated dispatch answers InvalidParameter(parameters)"),
+    "C08-4": ("C08", "Serialize for StringHashSet uses a unit struct as each member's value (serialises to null, not {})",
+              "a non-empty `[string]()` value observed on the wire (the Rust deserialiser ignores member values, so round trips stay equal)"),
+    "C11-3": ("C11", "trim_doc() simplified from the grammar's white-space list to str::trim()",
+              "documentation trivia starting or ending with U+FEFF or U+180E (white space for the grammar, not for trim): the doc no longer mirrors the comment"),
+    "C11-4": ("C11", "from_token's cross-kind lookups turned into BTreeMap::contains_key; in the Error arm the second operand slips to i.errors",
+              "`method X` earlier than `error X` (the other eight ordered kind pairs are still reported)"),
+    "C12-3": ("C12", "the error mapping cuts the offending line at every line terminator the grammar accepts, start = rfind(is_eol) + 1",
+              "a syntax error whose nearest preceding terminator is U+2028 / U+2029: the slice starts inside the 3-byte encoding and panics"),
+    "C12-4": ("C12", "rule vstruct gets a second alternative tolerating a trailing comma (PEG alternatives do not share work)",
+              "struct nesting of a few dozen levels with an error at the innermost level: 2^depth, depth 40 does not return"),
+    "C14-5": ("C14", "worker: `match receiver.lock().unwrap().recv() {..}` -- the guard is a temporary of the match and is held while the job runs",
+              "two connections open at the same time: the second never reaches its handler although workers are free"),
+    "C14-6": ("C14", "execute grows to `busy.min(max) + 1` workers (the +1 after the clamp)",
+              "saturation: max connections in service and one more arriving: max+1 served concurrently"),
+    "C16-3": ("C16", "activation_listener lets LISTEN_FDNAMES decide alone when present; `one fd means fd 3` only when it is absent",
+              "one descriptor, correct LISTEN_PID, LISTEN_FDNAMES not containing `varlink` (systemd's default): activation ignored"),
+    "C16-4": ("C16", "client: unix_socket_name() strips `;parameters` with rsplit_once(';') (only the last one)",
+              "a unix address with two or more `;` parameters: the server binds the plain path, the client connects to `path;first`"),
+    "C18-5": ("C18", "proxy::handle: the address cache is keyed on the method's interface prefix instead of the interface the request is routed to",
+              "two GetInterfaceDescription requests back to back for interfaces on different services"),
+    "C18-6": ("C18", "copy() flushes only after a short read or at EOF",
+              "a burst that is an exact multiple of 8192 bytes, contains a newline, does not end in one, then the service waits: 64 bytes stay in Stdout's line buffer"),
+    "C19-5": ("C19", "new_client_id hashes SystemTime in milliseconds",
+              "two Start calls served within the same millisecond get the same client id"),
+    "C19-6": ("C19", "client table re-keyed from String to u64 parsed from the hex id",
+              "an unknown id that is a different string but the same number (`0<id>`, `+<id>`, upper case) passes the gate"),
     # ---- round 6 (2026-09-29) ----
     "C01-5": ("C01", "handle() reads each message through `.take(MAX_MESSAGE_SIZE)` (1 MiB): a longer request comes back without its NUL and is treated as an incomplete tail",
               "a well-formed request larger than 1 MiB with further requests pipelined behind it"),
@@ -185,11 +222,13 @@ def main():
             continue
         prop, what, needs = DESC.get(name, ("?", "?", "?"))
         res = {}
-        for fn in ("result.scratch.json", "result.json", "result.own.json"):
-            p = os.path.join(d, fn)
-            if os.path.exists(p):
-                res = json.load(open(p))
-                break
+        cands = [os.path.join(d, fn) for fn in ("result.scratch.json", "result.json", "result.own.json") if os.path.exists(os.path.join(d, fn))]
+        if cands:
+            res = json.load(open(cands[0]))
+            own_p = os.path.join(d, "result.own.json")
+            if os.path.exists(own_p) and own_p != cands[0] and os.path.getmtime(own_p) > os.path.getmtime(cands[0]):
+                # a later run of the seed's own check (after the machinery was strengthened) supersedes that column
+                res.setdefault("results", {}).update(json.load(open(own_p)).get("results", {}))
         results = res.get("results", {})
         cj = os.path.join(d, "confirm.json")
         if os.path.exists(cj):
